@@ -27,6 +27,7 @@ type limitObs struct {
 	MaxDepth    int    `json:"maxdepth"`
 	Refused     int    `json:"refused"`
 	RefuseDepth int    `json:"refusedepth"`
+	Need        int    `json:"need"` // frames the run needs at its deepest point (0: not known, runaway recursion)
 	Note        string `json:"note"`
 }
 
@@ -176,21 +177,59 @@ func checkC20(c *Ctx) {
 	}
 	var bjobs []Job
 	var bmeta []string
+	var bneed []int
+	perLevel := map[string]int{"direct": 1, "mutual": 1, "matchb": 2, "matche": 2}
+	// what runs thousands of times before the recursion: completed calls and match scopes, and every way a
+	// control-flow signal can leave a call or a match scope (none of them may leave a frame behind)
+	warmFns := "function w() {\n  return 1\n}\nfunction wr(n) {\n  return match (n) { z => match (z % 2) { 0 => {\n    return 1\n  }, _ => 2 } }\n}\n" +
+		"function wl(n) {\n  for (q in [1, 2]) {\n    match (q) { 1 => {\n      continue\n    }, _ => {\n      return n\n    } }\n  }\n}\n" +
+		"function wx(n) {\n  while (1) {\n    wq = match (n) { z => match (z) { y => {\n      break\n    } } }\n  }\n  return n\n}\n"
+	warmKinds := []struct{ name, body string }{
+		{"none", ""},
+		{"calls", "    w()\n    wv = match (1) { z => z }\n"},
+		{"return-through-match", "    wv = wr(i)\n"},
+		{"continue-return-in-forin", "    wv = wl(i)\n"},
+		{"break-through-match", "    wv = wx(i)\n"},
+		{"continue-through-match", "    wv = match (i) { z => match (z % 3) { 0 => {\n      continue\n    }, _ => z } }\n"},
+		{"block-arm", "    match (i) { z => {\n      wv = z\n    } }\n"},
+		{"next-through-match", "RULE"},
+	}
 	for name, fn := range shapes {
 		for _, d := range depths {
-			for _, warm := range []int{0, 5000} {
-				if warm > 0 && d != 1000 && d != 100000 {
+			for wk, warm := range warmKinds {
+				if wk > 0 && d != 1000 && d != 100000 && d != 10 {
 					continue
 				}
 				// entered directly, and through one and two extra wrapper functions (which shifts whether the
 				// push that hits the limit is a call or a <match> scope)
 				for wraps, entry := range []string{"f(%d)", "w1(%d)", "w2(%d)"} {
-					if wraps > 0 && warm > 0 {
+					if wraps > 0 && wk > 0 {
 						continue
 					}
-					prog := fn + fmt.Sprintf("function w() {\n  return 1\n}\nfunction w1(n) {\n  return f(n)\n}\nfunction w2(n) {\n  return w1(n)\n}\nBEGIN {\n  print \"start\"\n  for (i = 0; i < %d; i++) {\n    w()\n    wv = match (1) { z => z }\n  }\n  print "+entry+"\n  print \"after\"\n}\n", warm, d)
-					bjobs = append(bjobs, Job{Kind: "run", Prog: []byte(prog), Events: true, Budget: 50_000_000, N: d})
-					bmeta = append(bmeta, fmt.Sprintf("%s depth=%d warm=%d wrappers=%d", name, d, warm, wraps))
+					pre := fn + warmFns + "function w1(n) {\n  return f(n)\n}\nfunction w2(n) {\n  return w1(n)\n}\n"
+					var prog string
+					var files []FileIn
+					switch {
+					case warm.body == "RULE":
+						prog = pre + "{\n  wv = match ($) { n => match (n % 2) { 0 => {\n    next\n  }, _ => n } }\n  cnt++\n}\nEND {\n  print \"start\"\n  print " + fmt.Sprintf(entry, d) + "\n  print \"after\"\n}\n"
+						var sb strings.Builder
+						sb.WriteString("[")
+						for i := 0; i < 6000; i++ {
+							if i > 0 {
+								sb.WriteString(",")
+							}
+							fmt.Fprintf(&sb, "%d", i)
+						}
+						sb.WriteString("]")
+						files = []FileIn{{Name: "in.json", Data: []byte(sb.String())}}
+					case warm.body == "":
+						prog = pre + "BEGIN {\n  print \"start\"\n  print " + fmt.Sprintf(entry, d) + "\n  print \"after\"\n}\n"
+					default:
+						prog = pre + "BEGIN {\n  print \"start\"\n  for (i = 0; i < 5000; i++) {\n" + warm.body + "  }\n  print " + fmt.Sprintf(entry, d) + "\n  print \"after\"\n}\n"
+					}
+					bjobs = append(bjobs, Job{Kind: "run", Prog: []byte(prog), Files: files, Events: true, Budget: 50_000_000, N: d})
+					bmeta = append(bmeta, fmt.Sprintf("%s depth=%d warm=%s wrappers=%d", name, d, warm.name, wraps))
+					bneed = append(bneed, perLevel[name]*d+1+wraps)
 				}
 			}
 		}
@@ -218,7 +257,7 @@ func checkC20(c *Ctx) {
 			return
 		}
 		md, refused, rd := frameStats(r)
-		obs = append(obs, limitObs{What: "call", X: bjobs[i].N, OK: b2i(r.Class == "ok"), MaxDepth: md, Refused: b2i(refused), RefuseDepth: rd, Note: bmeta[i]})
+		obs = append(obs, limitObs{What: "call", X: bjobs[i].N, OK: b2i(r.Class == "ok"), MaxDepth: md, Refused: b2i(refused), RefuseDepth: rd, Need: bneed[i], Note: bmeta[i]})
 		c.Case("rec:"+bmeta[i], true)
 	})
 
@@ -316,6 +355,31 @@ func checkC20(c *Ctx) {
 		}
 		obs = append(obs, limitObs{What: "width", X: w, OK: b2i(r.Class == "ok")})
 		c.Case(fmt.Sprintf("width:%d", w), true)
+	})
+
+	// widths TLC's integers cannot hold (and the extremes of the machine word): beyond 65536 by any reading,
+	// so they are refused; with every conversion that pads, and with an empty and a non-empty argument
+	var hjobs []Job
+	for _, w := range []string{"2147483647", "2147483648", "4294967296", "9223372036854775806", "9223372036854775807", "9223372036854775808", "18446744073709551616", "99999999999999999999999",
+		"-2147483648", "-2147483649", "-4294967296", "-9223372036854775807", "-9223372036854775808", "-9223372036854775809", "-18446744073709551616", "-99999999999999999999999",
+		"065537", "-065537", "0000000000000000000065537"} {
+		for _, conv := range []string{"s", "f", "v"} {
+			for _, arg := range []string{`"ab"`, `""`, `1.5`, `[1]`} {
+				hjobs = append(hjobs, Job{Kind: "run", Prog: []byte("BEGIN {\n  print \"start\"\n  printf(\"[%" + w + conv + "]\", " + arg + ")\n  print \"after\"\n}\n"), Budget: 1000, Tag: w + conv})
+			}
+		}
+	}
+	pool.Map(hjobs, func(i int, r Result) {
+		if r.Class == "timeout" {
+			c.Count("inconclusive", 1)
+			return
+		}
+		if r.Class != "runtime" || string(r.Stdout) != "start\n" {
+			c.Violation("huge-width-"+r.Class, map[string]any{"program": string(hjobs[i].Prog), "got_class": r.Class, "got_err": r.ErrMsg, "got_stdout_len": len(r.Stdout), "detail": r.Detail,
+				"why": "a printf width beyond 65536 is refused with a runtime error (nothing of the printf is written, the prior output is kept)"})
+			return
+		}
+		c.Case("hugewidth:"+string(hjobs[i].Prog), true)
 	})
 
 	// ---- JSON nesting (library and binary)
